@@ -2,13 +2,17 @@
 //!
 //! ```text
 //! bed <recs> <comments> <fault>            recs  = `/`-list of `chrom;start;end[;aux…]`   (`-` = no record)
-//! gff <gff3|gff2|gtf2> <recs> <comments> <fault>
+//! gff <gff3|gff2|gtf2> <recs> <comments> <fault> <style>
 //!                                          recs  = `/`-list of `seq;src;type;start;end;score;strand;phase;attrs`
 //!                                          phase = n|0|1|2 ; attrs = `,`-list of `key:v1:v2…` in insertion order (`-` = none)
 //! ```
 //! String fields are hex (`-` = empty).  comments = `,`-list of `pos:hex` — the line `hex` (empty, or starting
 //! with `#`) is inserted before record `pos`.  fault = `none` | `set:<line>:<col>:<hex>` | `add:<line|all>:<hex>` |
 //! `del:<line>:<col>` | `cut:<o1>:<o2>…` and is applied to the bytes the real writer produced.
+//!
+//! style = plain|spaced|quoted: the harness additionally writes the records itself in the *intended* format
+//! (every value of every key; `spaced` = `; ` between attributes and a trailing `;`, `quoted` = additionally every
+//! value in double quotes, the usual GTF look) and lets the real reader read that: `m:<hex>=<results>` (GFF only).
 //!
 //! Observation: `w:<hex> r:<results> c:<results> rw:<hex|x> f:<faulted hex>=<results>` (for `cut`:
 //! `f:<results>/<results>…`, one per offset; for `none`: `f:-`).  `w` = bytes written by the real writer, `r` = the
@@ -413,6 +417,66 @@ fn gff_build(recs: &[GffRec]) -> Vec<gff::Record> {
         .collect()
 }
 
+/// the records in the intended file format, written by the harness (not by rust-bio): reader-only test input
+fn intended_bytes(recs: &[GffRec], d: &str, style: &str) -> Result<Vec<u8>, String> {
+    let (_, delim, term, vdelim) = dialect(d)?;
+    let (sep, trailing, quote): (&[u8], bool, bool) = match style {
+        "plain" => (&[term][..], false, false),
+        "spaced" => (&[term, b' '][..], true, false),
+        "quoted" => (&[term, b' '][..], true, true),
+        _ => return Err("style".into()),
+    };
+    let sep = sep.to_vec();
+    let q = |v: &[u8]| -> Vec<u8> {
+        if quote {
+            let mut o = vec![b'"'];
+            o.extend_from_slice(v);
+            o.push(b'"');
+            o
+        } else {
+            v.to_vec()
+        }
+    };
+    let mut out = vec![];
+    for r in recs {
+        let mut segs: Vec<Vec<u8>> = vec![];
+        for (k, vs) in &r.attrs {
+            if vdelim == 0 {
+                for v in vs {
+                    let mut s = k.clone();
+                    s.push(delim);
+                    s.extend(q(v));
+                    segs.push(s);
+                }
+            } else {
+                let mut s = k.clone();
+                s.push(delim);
+                s.extend(vs.iter().map(|v| q(v)).collect::<Vec<_>>().join(&vdelim));
+                segs.push(s);
+            }
+        }
+        let mut attrs = segs.join(&sep[..]);
+        if trailing && !segs.is_empty() {
+            attrs.push(term);
+        }
+        let phase = r.phase.map(|p| p.to_string()).unwrap_or_else(|| ".".into());
+        let fields: Vec<Vec<u8>> = vec![
+            r.seq.clone(),
+            r.src.clone(),
+            r.typ.clone(),
+            r.start.to_string().into_bytes(),
+            r.end.to_string().into_bytes(),
+            r.score.clone(),
+            r.strand.clone(),
+            phase.into_bytes(),
+            attrs,
+        ];
+        out.extend(fields.join(&b'\t'));
+        out.push(b'\n');
+    }
+    Ok(out)
+}
+
 pub fn exec(toks: &[&str]) -> Result<String, String> {
     if toks.is_empty() {
         return Err("arity".into());
@@ -436,7 +500,7 @@ pub fn exec(toks: &[&str]) -> Result<String, String> {
             Ok(format!("w:{} r:{} c:{} rw:x f:{}", hex(&w), r, c, f))
         }
         "gff" => {
-            if toks.len() != 5 {
+            if toks.len() != 6 {
                 return Err("arity".into());
             }
             let (t, _, _, _) = dialect(toks[1])?;
@@ -452,7 +516,9 @@ pub fn exec(toks: &[&str]) -> Result<String, String> {
                 Fault::Bytes(b) => format!("{}={}", hex(&b), gff_read(&b, t).0),
                 Fault::Cuts(offs) => offs.iter().map(|&o| gff_read(&w[..o], t).0).collect::<Vec<_>>().join("/"),
             };
-            Ok(format!("w:{} r:{} c:{} rw:{} f:{}", hex(&w), r, c, rw, f))
+            let mb = intended_bytes(&recs, toks[1], toks[5])?;
+            let m = format!("{}={}", hex(&mb), gff_read(&mb, t).0);
+            Ok(format!("w:{} r:{} c:{} rw:{} f:{} m:{}", hex(&w), r, c, rw, f, m))
         }
         _ => Err("op".into()),
     }
@@ -700,7 +766,8 @@ fn gen_gff(rng: &mut Rng, every_cut: bool) -> String {
         gen_fault(rng, n, 9, &[3, 4], Some(7), wlen)
     };
     let recs_s: Vec<String> = recs.iter().map(fmt_gff).collect();
-    format!("gff {} {} {} {}", d, join(&recs_s, "/"), gen_comments(rng, n), fault)
+    let style = *rng.pick(&["plain", "plain", "spaced", "quoted"]);
+    format!("gff {} {} {} {} {}", d, join(&recs_s, "/"), gen_comments(rng, n), fault, style)
 }
 
 pub fn gen(tier: &str, rng: &mut Rng, out: &mut Vec<String>) {
